@@ -1,5 +1,6 @@
 SPECIFICATION Spec
 CONSTANT MaxSources = 2
+CONSTANT MaxChanges = 1
 CONSTRAINT Emit
 INVARIANT Inv_C17_Order
 INVARIANT Inv_C17_Options
